@@ -67,7 +67,8 @@ fn spec() -> impl Strategy<Value = Spec> {
         prop_oneof![4 => Just(None), 1 => (-0.3f32..0.3).prop_map(Some), 1 => (-3.2f32..3.2).prop_map(Some)],
         prop_oneof![90 => Just(0u8), 1 => Just(1u8), 1 => Just(2u8), 1 => Just(3u8)],
         proptest::bool::weighted(0.12),
-        prop_oneof![(1u8..10).prop_map(|k| k as f32 / 10.0), 0.05f32..0.95],
+        // detector confidences, or raw scores that need not be positive (zero, logits)
+        prop_oneof![6 => (1u8..10).prop_map(|k| k as f32 / 10.0), 6 => 0.05f32..0.95, 1 => Just(0.0f32), 1 => -3.0f32..0.0],
         any::<bool>(),
     )
         .prop_map(|(cluster, ox, oy, fw, fh, rot, invalid, dup, score, score_none)| Spec { cluster, ox, oy, fw, fh, rot, invalid, dup, score, score_none })
